@@ -213,6 +213,22 @@ class CursorDiffs(object):
                         D = self.shift(D, ik, cst if op_ == '+=' else -cst)
                     elif rhs_ is not None:
                         D = self.forget_counter(D, ik)
+                        r0_ = strip_casts(rhs_)
+                        if op_ == '=' and r0_.get('k') == 'bin' and r0_['op'] == '-':
+                            # v = e - c for two cursors: what is known about their distance is known about v
+                            pe, pc = self.norm(r0_['l']), self.norm(r0_['r'])
+                            if pe and pc and pe[1] != 'nonneg' and pc[1] != 'nonneg':
+                                lo = self.get(D, pe[0], pc[0])
+                                hi = self.get(D, pc[0], pe[0])
+                                if lo > NEG:
+                                    D[(ik, 'Z')] = lo + pe[1] - pc[1]
+                                if hi > NEG:
+                                    D[('Z', ik)] = hi - pe[1] + pc[1]
+                        if op_ == '=' and (ik, 'Z') not in D:
+                            tl = ev.lhs if ev.kind == 'declinit' else strip_casts(ev.lhs)
+                            tt = self.u.ty(tl['ty'] if ev.kind == 'declinit' else tl.get('ty0', tl['ty']))
+                            if tt.get('unsigned'):
+                                D[(ik, 'Z')] = 0          # an unsigned counter is not negative
                     continue
             if ev.kind == 'incdec':
                 c = self.key(ev.lhs)
@@ -431,6 +447,13 @@ class CursorDiffs(object):
                         b = self.norm(acc[0])
                         if b:
                             loaded.add(b[0])
+                elif ev.kind == 'call' and callee_name(ev.node) in ('memmove', 'memcpy', 'strcpy', 'strncpy') and len(ev.node['args']) >= 2:
+                    # a block move writes through its first argument and reads through its second
+                    bw, br = self.norm(ev.node['args'][0]), self.norm(ev.node['args'][1])
+                    if bw:
+                        stored.add(bw[0])
+                    if br:
+                        loaded.add(br[0])
         W = set(stored)
         changed = True
         while changed:
